@@ -659,12 +659,15 @@ func doubleSignMatch(c *corpus, q *query, id oid.ID) bool {
 		return s
 	}
 	changed := false
-	for _, f := range q.Fs {
+	for i, f := range q.Fs {
 		if matches(o, f) {
 			continue
 		}
 		if !isNum(f.M) {
 			return false
+		}
+		if i > 0 && len(q.Attrs) > 0 && f.K == q.Fs[0].K && !isNum(q.Fs[0].M) {
+			return false // a numeric filter evaluated on the string index key: another root cause
 		}
 		v := o.attrs[f.K]
 		o2 := &mobj{attrs: map[string]string{f.K: relaxed(v)}}
